@@ -105,9 +105,12 @@ class GcodeHandlers(object):
 
         # Compute the number of segments to produce based on the length of the arc
         arcLength = abs(angularTravel) * radius
-        numSegments = int(math.ceil(arcLength / MM_PER_ARC_SEGMENT))
+        numSegments = 0
+        if (arcLength < float("inf")):
+            numSegments = int(math.ceil(arcLength / MM_PER_ARC_SEGMENT))
         if (numSegments < 1):
-            # Zero length arc (e.g. the end point is in line with the start and center points):
+            # Zero length arc (e.g. the end point is in line with the start and center points),
+            # or no finite length because the tracked position has overflowed:
             # like Marlin, process it as a single segment to the end point
             numSegments = 1
 
